@@ -9,11 +9,13 @@ import itertools
 
 import numpy as np
 
+from common import coq_eval, natl, natll, parse_ints, try_coq
 from gens import atoms_of, base_cells, make_supercell, random_dataset
 from tensors import apply_op, full_basis_tensors, same_span
 
 UNITS = []
 PROPS = ["props/C02.v"]
+EXTRA = ["theories/CosetModel.vo"]
 ASSUMPTIONS = ["orthogonality and the group law of the float matrices L r L^-1, the 1e-10 entry drop and spglib's output are assumptions checked numerically",
                "the relation 'coset projector of the code = average over the group' is established by the numerical correspondence on small cells, the algebra around it by the theorems"]
 
@@ -162,3 +164,46 @@ def check(ctx):
                          replay={"cell": sc["name"], "lattice": sc["lattice"].tolist(), "positions": sc["positions"].tolist(), "numbers": [int(x) for x in sc["numbers"]], "order": order}, has_input=True)
             if np.abs(Pimpl @ Pimpl - Pimpl).max() > 1e-9 or np.abs(Pimpl - Pimpl.T).max() > 1e-9:
                 ctx.fail("oracle", f"C02/conformance/projector/order{order}", f"{sc['name']}: the coset matrix of order {order} is not an orthogonal projector", replay={"cell": sc["name"], "order": order}, has_input=True)
+
+    # ---- correspondence with the Coq model of the compressed coset sum (cells whose Cartesian rotations are integer matrices)
+    def corr():
+        from symfc.spg_reps import SpgRepsO2 as R2, SpgRepsO3 as R3, SpgRepsO4 as R4
+        todo = [("mono_P", (1, 1, 1)), ("tri2_Pm1", (1, 1, 1)), ("bcc_conv", (1, 1, 1)), ("cscl", (1, 1, 1)), ("tri1", (2, 2, 1)), ("ortho_C", (1, 1, 1)), ("tet_bc", (1, 1, 1))]
+        if not ctx.quick:
+            todo += [("sc1", (2, 1, 1)), ("mono_C", (1, 1, 1)), ("ortho_I", (1, 1, 1)), ("nacl_prim", (1, 1, 1)), ("fcc_conv", (1, 1, 1)), ("tri1", (2, 2, 2))]
+        exprs, meta = [], []
+        for cname, diag in todo:
+            sc = make_supercell(base_cells()[cname], diag, rng=rng, shuffle=True)
+            N = len(sc["numbers"])
+            at = atoms_of(sc)
+            L = np.asarray(sc["lattice"], float)
+            for order, Reps in ((2, R2), (3, R3), (4, R4)):
+                if N ** order * 3 ** order > (1500 if ctx.quick else 7000):
+                    continue
+                reps = Reps(at)
+                uri = reps.unique_rotation_indices
+                rots = reps._get_symops(None)[0]
+                Rs = [L.T @ np.asarray(rots[i]) @ np.linalg.inv(L.T) for i in uri]
+                if any(np.abs(R - np.rint(R)).max() > 1e-9 for R in Rs):
+                    continue
+                mod = importlib.import_module(f"symfc.utils.utils_O{order}")
+                Pimpl = getattr(mod, f"get_compr_coset_projector_O{order}")(reps).toarray()
+                tp = np.asarray(reps.translation_permutations)
+                ops = "[" + "; ".join("(" + natl(np.asarray(reps._permutations)[i]) + ", [" + "; ".join("[" + "; ".join(f"({int(round(x))})" for x in row) + "]" for row in R) + "])" for i, R in zip(uri, Rs)) + "]"
+                size = Pimpl.shape[0]
+                Pint = np.rint(Pimpl * len(uri)).astype(np.int64)
+                integral = float(np.abs(Pimpl * len(uri) - Pint).max())
+                rr, cc = np.nonzero(Pint)
+                exp = "[" + "; ".join(f"[{int(r_)}; {int(c_)}; ({int(Pint[r_, c_])})]" for r_, c_ in zip(rr, cc)) + "]"
+                exprs.append(f"coset_check {order}%nat {N}%nat ({natll(tp)}) None {ops} {size}%N {exp}")
+                meta.append((sc, order, integral, len(uri)))
+        for s0 in range(0, len(exprs), 4):
+            res = coq_eval(f"c02_coset_{ctx.tier}_{s0}", ["From SymfcV Require Import Tuples Concrete Cutoff CosetModel."], [], exprs[s0:s0 + 4], timeout=1500)
+            for (sc, order, integral, nrot), r in zip(meta[s0:s0 + 4], res):
+                ctx.traces += 1
+                ctx.case({"cell": sc["name"], "coset_model_order": order, "n_rotations": int(nrot)}, nontrivial=nrot >= 2)
+                ctx.count("coset-model")
+                if r.strip() != "true" or integral > 1e-9:
+                    ctx.fail("correspondence", f"C02/corr/coset-model/order{order}", f"{sc['name']}: compressed coset sum of order {order} (times the number of rotations) differs from the Coq model CosetModel.coset_triples" + ("" if integral <= 1e-9 else " (not integral)"),
+                             replay={"cell": sc["name"], "lattice": sc["lattice"].tolist(), "positions": sc["positions"].tolist(), "numbers": [int(x) for x in sc["numbers"]], "order": order}, has_input=True)
+    try_coq(ctx, "C02/corr/coset-model", corr)
